@@ -25,7 +25,7 @@ func main() {
 	unwind := flag.Int("unwind", 12, "unwind bound for loops with symbolic conditions")
 	feasMs := flag.Int("feas-ms", 5000, "feasibility query timeout")
 	assertMs := flag.Int("assert-ms", 60000, "assertion query timeout")
-	solver := flag.String("solver", "z3", "primary solver")
+	solver := flag.String("solver", "z3-new", "primary solver")
 	solver2 := flag.String("solver2", "", "second solver for assertion queries")
 	trace := flag.Bool("trace", false, "trace instructions")
 	replay := flag.String("replay", "", "JSON file with {\"harness\":..., \"vars\":{...}}: run concretely in the engine")
